@@ -8,6 +8,8 @@ import (
 	"sync/atomic"
 	"errors"
 	"fmt"
+	"iter"
+	"strings"
 	"runtime"
 	"sort"
 	"strconv"
@@ -215,6 +217,7 @@ type hookObs struct {
 }
 
 type interp struct {
+	held []*heldIter
 	own  string
 	c    Case
 	opt  Options
@@ -1099,10 +1102,12 @@ func (in *interp) commit(w *wtxn) {
 	for _, ws := range in.watches {
 		closedBefore[ws] = isClosed(ws.ch)
 	}
+	in.consumeHeld(w, 0, "before Commit")
 	in.committing = w
 	rtxn := w.txn.Commit()
 	in.committing = nil
 	in.removeW(w)
+	in.consumeHeld(w, 1, "after Commit")
 	in.lastFinished, in.lastFinishedLocked, in.lastWrote = w.txn, w.locked, w.wrote
 	in.cur = post
 	in.seq++
@@ -1339,8 +1344,10 @@ func (in *interp) abort(w *wtxn) {
 	for t := range in.tbls {
 		numDelBefore[t] = statedb.VerifNumDeletedObjects(r0, in.tbls[t])
 	}
+	in.consumeHeld(w, 0, "before Abort")
 	w.txn.Abort()
 	in.removeW(w)
+	in.consumeHeld(w, 1, "after Abort")
 	in.lastFinished, in.lastFinishedLocked, in.lastWrote = w.txn, w.locked, nil
 	after := in.channelStates()
 	for i := range before {
@@ -1522,6 +1529,37 @@ func (in *interp) reaudit(full bool, seed int) {
 	}
 }
 
+// heldIter: an unconsumed query iterator with the answer the model gave when
+// it was created. mode 0: consumed just before the owning write transaction
+// finishes, 1: right after its Commit/Abort returned, 2: at the end of the case.
+type heldIter struct {
+	seq     iter.Seq2[*Obj, statedb.Revision]
+	exp     expect
+	q       Query
+	t       int
+	takenAt int
+	where   string
+	mode    int
+	w       *wtxn
+	done    bool
+}
+
+// consumeHeld consumes the held iterators of w (all of them when w is nil)
+// whose mode is at most maxMode.
+func (in *interp) consumeHeld(w *wtxn, maxMode int, when string) {
+	for _, h := range in.held {
+		if h.done || (w != nil && h.w != w) || h.mode > maxMode {
+			continue
+		}
+		h.done = true
+		got := collectSeq(h.seq)
+		if msg := h.exp.check(got); msg != "" {
+			in.viol("C01", "held-iterator", "iterator of %v on t%d created at step %d (%s), consumed %s: %s", h.q, h.t, h.takenAt, h.where, when, msg)
+		}
+		in.res.class("held_iterator_consumed_" + strings.ReplaceAll(when, " ", "_"))
+	}
+}
+
 func (in *interp) query(o Op) string {
 	if o.Q == nil {
 		return "noquery"
@@ -1558,11 +1596,47 @@ func (in *interp) query(o Op) string {
 			q.Len = 24
 		}
 	}
+	// ---- held iterators (C01): the iterator is created now and consumed later -
+	// after further writes of the same transaction, after its Commit/Abort, or
+	// at the end of the case; it must yield what the query matched now.
+	holdEvery := 8
+	if in.own == "C01" {
+		holdEvery = 2
+	}
+	if o.P%holdEvery == 1 && q.Kind != qGet && len(in.held) < 12 {
+		if seq := lazyQuery(in.tbls[t], txn, q); seq != nil {
+			h := &heldIter{seq: seq, exp: ts.expected(q), q: q, t: t, takenAt: in.step, where: where, mode: (o.P / 8) % 3}
+			if o.H < 0 && len(in.ws) > 0 {
+				h.w = in.pickW(-o.H - 1)
+			} else {
+				h.mode = 2
+			}
+			in.held = append(in.held, h)
+			in.res.class(fmt.Sprintf("held_iterator_mode%d", h.mode))
+			return "query held"
+		}
+	}
 	got, _ := runQuery(in.tbls[t], txn, q)
 	if msg := ts.expected(q).check(got); msg != "" {
 		in.viol("C04", "query-"+qNames[q.Kind]+"-"+idxNames[q.Idx], "%s of t%d: %v: %s", where, t, q, msg)
 	}
 	in.res.class("query_" + qNames[q.Kind] + "_" + idxNames[q.Idx])
+	// a consumer that stops early gets the first elements and no more
+	if stop := 1 + o.P%2; o.P%5 == 2 && len(got) > stop {
+		if seq := lazyQuery(in.tbls[t], txn, q); seq != nil {
+			var part []item
+			for ob, r := range seq {
+				part = append(part, item{ob.N, r})
+				if len(part) == stop {
+					break
+				}
+			}
+			if !eqItems(part, got[:stop]) {
+				in.viol("C04", "early-stop", "%s of t%d: %v consumed up to element %d yields %v, the full answer starts with %v", where, t, q, stop, part, got[:stop])
+			}
+			in.res.class("query_stopped_early")
+		}
+	}
 	// the string interface must agree with the typed one
 	if o.P%2 == 0 && q.Idx != idxRev {
 		gotAny, err := runQueryAny(in.tbls[t], txn, q)
@@ -1714,6 +1788,7 @@ func (in *interp) finish() {
 		in.boundary()
 	}
 	in.reaudit(true, 0)
+	in.consumeHeld(nil, 2, "at the end of the case")
 	fresh := in.db.ReadTxn()
 	for t := range in.tbls {
 		in.auditSome(in.tbls[t], fresh, in.cur.tables[t], 0, 0, "final snapshot")
